@@ -318,3 +318,18 @@ def gen_ilog_payload(rng):
         out += struct.pack(">HHI", rng.randrange(1 << 16), rng.randrange(1 << 16),
                            rng.choice([0xE308310E, 0xE3083100, rng.randrange(1 << 32), 0x11000000 | rng.randrange(1 << 16)]))
     return out.hex()
+
+
+SEVERITY_GROUPS = ["Informational", "Recovered", "Predictive", "Unrecoverable", "Critical", "Diagnostic", "Symptom"]
+
+
+def gen_selection(rng):
+    """a selection-option combination: one of the usual sets, or (half of the time) an arbitrary subset of
+    -E -s -N -H -t -O with 0..3 severity groups"""
+    if rng.random() < 0.5:
+        return list(rng.choice(SELECTION_SETS))
+    opts = [o for o in ("-E", "-s", "-N", "-H", "-t", "-O") if rng.random() < 0.25]
+    if rng.random() < 0.4:
+        # -S takes one or more values; it goes last so that it cannot swallow a following positional option
+        opts += ["-S"] + rng.sample(SEVERITY_GROUPS, rng.randint(1, 3))
+    return opts
